@@ -49,7 +49,7 @@ def run(tier):
     states = transitions = replayed = 0
     rnd = random.Random(seed())
     plans = [("bfs-1srv", dict(servers=[1], maxmsgs=3, maxops=6 if tier == "quick" else 7), [("os", "thread"), ("os", "process")]),
-             ("sim-2srv", dict(servers=[1, 2], maxmsgs=3, maxops=14, simulate=40 if tier == "quick" else 600, depth=40,
+             ("sim-2srv", dict(servers=[1, 2], maxmsgs=3, maxops=14, simulate=40 if tier == "quick" else 4000, depth=40,
                                tlcseed=seed()), [("os", "process"), ("memfd", "thread")])]
     for name, kw, targets in plans:
         t0 = time.time()
